@@ -160,12 +160,16 @@ CONFIG = {
         "partial": "token content of attribute bodies beyond the chaos grammar is not enumerated",
     },
     "C10": {
-        "lean_modules": ["Darling.Props.C10", "Darling.Props.C10Spec"],
+        "lean_modules": ["Darling.Props.C10", "Darling.Props.C10Spec", "Darling.Props.C10Spec2"],
         "streams": [
-            {"name": "c10", "n": {"quick": 1000, "thorough": 200000}, "trivial": lambda case, ans: False},
+            {"name": "c10", "n": {"quick": 1000, "thorough": 200000}, "trivial": lambda case, ans: False,
+             # the same container options in another order / attribute split: accepted by all or by none
+             "group_judge": (lambda cid: (re.match(r"o-(\w+)-\d+$", cid) or [None, None])[1],
+                             lambda ans: "impl" if ans == "(impl)" else "rejected",
+                             lambda case: False)},
             {"name": "c06", "n": {"quick": 3000, "thorough": 50000}, "trivial": lambda case, ans: False},
         ],
-        "rule": "c10: exhaustive — every single field option, every ordered pair of the 12 field option spellings in both attribute splits (thorough: every ordered triple in all 4 splits) x 6 derives, plus 33 hand-picked declarations for the body rules (two / three flatten fields, word rules, from_word rules, attrs without forward_attrs, FromAttributes without attributes, shape words incl. repeated prefixes and multi-segment words, unions, empty enums, n-tuple structs and variants, forwarded-field options); c06: the random chaos stream; compared: impl vs diagnostics, every message and span; distinct by case text",
+        "rule": "c10: every unordered pair of the 21 container option spellings in both orders and both attribute splits on three bodies x 6 derives (each compared with the model; the four members of a group must be accepted alike — group judge on the implementation's answers); exhaustive — every single field option, every ordered pair of the 12 field option spellings in both attribute splits (thorough: every ordered triple in all 4 splits) x 6 derives, plus 33 hand-picked declarations for the body rules (two / three flatten fields, word rules, from_word rules, attrs without forward_attrs, FromAttributes without attributes, shape words incl. repeated prefixes and multi-segment words, unions, empty enums, n-tuple structs and variants, forwarded-field options); c06: the random chaos stream; compared: impl vs diagnostics, every message and span; distinct by case text",
         "assumptions": ["syn's verdict on string literals inside options and strsim scores are oracle rows"],
     },
     "C08": {
